@@ -10,8 +10,8 @@ pub const META_C11: Meta = Meta {
     level: "exploration",
     rule: "Start from a fitting (program, signal list) pair of profile `binding` and apply 0-3 perturbations drawn from: remove / duplicate / rename a signal, change its direction, add extras (incl. an input literally named `<bidirectional>_out`), declare a virtual signal named like a real one, put C into an arbitrary column (output, virtual, `_out`, input), make an expression read an input / a virtual signal / an undeclared name, rename a header column to `<x>_out`, and scoping traps (variable bound only inside a loop and read after it, let inside while then read outside, read before let in the same loop body, loop bound reading its own counter, `n` read in a repeat bound). An independent judgement fits(model, signals) written from the statement of C11 decides what must happen; required: with_signals is Ok iff fits, and never panics. For every accepted pair the test is then iterated to the end against a device supplying every output-capable signal: a panic, a missing-outputs error or any disagreement with the reference row stream is a violation. Non-trivial = >= 1 perturbation or scoping trap applied; the evidence reports the 2x2 table fits x accepted (off-diagonal must be empty, both diagonal cells populated).",
     assumptions: &["fits() in harness/src/scope.rs is the trusted judgement (60 lines, parse-time scope rule as stated in C11)"],
-    quick_cases: 40_000,
-    thorough_cases: 1_500_000,
+    quick_cases: 150000,
+    thorough_cases: 3000000,
     floor: 500,
 };
 
